@@ -505,6 +505,8 @@ def setup(ctx):
         ctx.require('accepted.repeat.mass', 1, 'a repeated mass group must have parsed')
         ctx.require('accepted.repeat.layer', 1, 'a repeated layer group must have parsed')
         ctx.require('cases.zero-quantity', 1, 'zero quantities must have been exercised')
+        ctx.require('cases.zero-volume-share-without-density', 1,
+                    'a zero volume share of a component of unknown density must have been exercised')
         ctx.require('cases.disjoint.call', 1, 'per-component shares need cases with pairwise disjoint atoms')
         for name in ('scaled', 'scaled.table-keyword', 'public.table-keyword'):
             ctx.require('cases.table.' + name, 1, 'components on a private table with other masses, with and without '
@@ -584,6 +586,15 @@ def check_mixture(ctx, case):
         or any(n['t'] == 'm' and n['mode'] in ('wt', 'vol') and G.remainder(n) == 0 for n in G.walk(tree))
     if has_zero:
         ctx.count('cases.zero-quantity')
+        for n in G.walk(tree):
+            if n['t'] == 'm' and n['mode'] == 'vol':
+                last = len(n['parts']) - 1
+                for i, p in enumerate(n['parts']):
+                    if 'rep' in p:
+                        continue
+                    q = G.remainder(n) if i == last else G.frac(p['q'])
+                    if q == 0 and model_eval(p['node'])['density'] is None:
+                        ctx.count('cases.zero-volume-share-without-density')
 
     # 1. call form against the model
     problems = []
